@@ -6,6 +6,7 @@ import (
 	"fmt"
 	"reflect"
 	"strconv"
+	"sync"
 )
 
 var (
@@ -118,3 +119,28 @@ func verifFuncID(f any) int {
 }
 
 func verifIsEngine() bool { return false }
+
+func verifFreeze(root any) {}
+func verifThaw()           {}
+
+// vhRaceMode: set by the replay driver when the run is under the race
+// detector; vhQuery then performs the query from two goroutines at once.
+var vhRaceMode bool
+
+func vhQuery(f func() []any) []any {
+	if !vhRaceMode {
+		return f()
+	}
+	var wg sync.WaitGroup
+	var other []any
+	wg.Add(1)
+	go func() {
+		defer wg.Done()
+		defer func() { recover() }()
+		other = f()
+	}()
+	mine := f()
+	wg.Wait()
+	_ = other
+	return mine
+}
